@@ -93,10 +93,15 @@ Definition s_lax0 (c2 : Z) (first last : nat) (x : srow) (visited : list sent) :
 
 (* ---- remove_space_dimensions (Sparse specialisation): stored entries of removed columns are reset,
    the others shifted left by the number of removed columns before them ---- *)
-Definition s_remove (vars : list nat) (s : srow) : srow :=
+Definition s_remove0 (vars : list nat) (s : srow) : srow :=
   mkSR (ssize s - length vars)
        (map (fun e => ((fst e - length (filter (fun v => (v <? fst e)%nat) vars))%nat, snd e))
             (filter (fun e => negb (existsb (Nat.eqb (fst e)) vars)) (sents s))).
+(* ... and row.resize(row.size() - num_removed) drops whatever is stored at or beyond the new size
+   (nothing, when the row is well formed) *)
+Definition s_remove (vars : list nat) (s : srow) : srow :=
+  let r := s_remove0 vars s in
+  mkSR (ssize r) (filter (fun e => (fst e <? ssize r)%nat) (sents r)).
 Definition s_permute (c : list nat) (s : srow) : srow :=
   fold_left (fun r p => s_swap (fst p) (snd p) r) (cycle_swaps c) s.
 
